@@ -36,6 +36,8 @@ THEOREMS = [
     "JanetModel.Props.C18.gen_classified",
     "JanetModel.Props.C18.gen_fieldsOK",
     "JanetModel.Props.C18.upd_semantics",
+    "JanetModel.Props.C18.gen_outParams",
+    "JanetModel.Props.C18.stop_semantics",
     "JanetModel.Props.C18.gen_entriesCover",
     "JanetModel.Props.C18.gen_entries",
     "JanetModel.Props.C18.sandbox_enforced_addr",
